@@ -144,9 +144,21 @@ var propWrap = hx.Prop[Case]{
 	},
 }
 
+// boxNames: names that are alone in their first-level directory (r1..r4) alternate with lock-bucket
+// and directory mates, so that even two or three mailboxes span directories that vanish with a
+// single purge and directories that do not.
 func boxNames(n int) []string {
-	pool := append(append([]string{}, hx.Bucket3()...), hx.Bucket6()...)
-	pool = append(pool, "r1", "r2", "r3", "r4")
+	mates := append(append([]string{}, hx.Bucket3()...), hx.Bucket6()...)
+	var pool []string
+	for i, r := range []string{"r1", "r2", "r3", "r4"} {
+		pool = append(pool, r)
+		for j := 0; j < 2 && 2*i+j < len(mates); j++ {
+			pool = append(pool, mates[2*i+j])
+		}
+	}
+	for len(pool) < 9 {
+		pool = append(pool, fmt.Sprintf("r%d", len(pool)+1))
+	}
 	return pool[:n]
 }
 
@@ -245,12 +257,22 @@ func run(c Case) *hx.Outcome {
 			if !strings.HasPrefix(point, "retention.scan.mailbox") && !strings.HasPrefix(point, "file.visit.") && !strings.HasPrefix(point, "mem.visit.") {
 				return
 			}
-			// which mailbox the scan is looking at right now
+			// which mailbox the scan is looking at right now - or, between the file store's directory
+			// levels, is about to reach (the first mailbox below the directory it is going to list)
 			if f := strings.Fields(point); len(f) == 2 {
-				if f[0] == "mem.visit.mailbox" {
+				switch f[0] {
+				case "mem.visit.mailbox":
 					current = f[1]
-				} else if f[0] == "file.visit.mailbox" {
+				case "file.visit.mailbox":
 					current = byHash[f[1]]
+				case "file.visit.level1", "file.visit.level2":
+					prefix := f[1][strings.LastIndexByte(f[1], '/')+1:]
+					for _, nm := range names {
+						if strings.HasPrefix(stringutil.HashMailboxName(nm), prefix) {
+							current = nm
+							break
+						}
+					}
 				}
 			}
 			n := int(yields.Add(1)) - 1
